@@ -190,7 +190,16 @@ func rtpDriver(env *Env) error {
 			un := rtprtcp.DefaultRtpUnpackerFactory(pt, sc.Rate, sc.Max, cb)
 			perr := 0
 			for _, i := range sc.Order {
-				p, err := rtprtcp.ParseRtpPacket(flat[i-1])
+				wire := flat[i-1]
+				if sc.Sc%3 == 1 && len(wire) >= 12 {
+					// the packet on the wire with RTP padding (RFC 3550 5.1: P bit, k-1 zero octets, the count k): no
+					// part of the payload, the depacketised units are the same
+					k := 1 + (i+sc.Sc)%4
+					wire = append(append([]byte{}, wire...), make([]byte, k)...)
+					wire[0] |= 0x20
+					wire[len(wire)-1] = byte(k)
+				}
+				p, err := rtprtcp.ParseRtpPacket(wire)
 				if err != nil {
 					perr++
 					continue
